@@ -36,7 +36,7 @@ def build_tree(ctx, N, nfiles_max=1, rich=False):
     prof = ctx.pick('profile', [p for p in (PROFILES_RICH if rich else PROFILES) if p[8] <= nfiles_max])
     main_enc, ce, fe, main_meta, change_meta, change_meta_enc, others_pre, others_diff, nf = prof
     d = DiffX(encoding=main_enc)
-    focus = ctx.pick('symbolic-section', ['main.preamble', 'change.preamble', 'diff'])
+    focus = ctx.pick('symbolic-section', ['main.preamble', 'change.preamble', 'diff', 'file.meta'])
 
     def preamble(owner, tag):
         if focus == tag + '.preamble':
@@ -69,7 +69,13 @@ def build_tree(ctx, N, nfiles_max=1, rich=False):
         if change_meta_enc:
             c.meta_encoding = 'utf-32-be'
     for j in range(nf):
-        f = c.add_file(meta={'path': 'f%d' % j})
+        if focus == 'file.meta' and j == 0:
+            from harness.rw import sym_meta
+            f = c.add_file(meta=sym_meta(ctx, 1))
+            if ctx.choose(0, 1, 'meta.encoding'):
+                f.meta_encoding = 'utf-16'
+        else:
+            f = c.add_file(meta={'path': 'f%d' % j})
         if fe and j == 0:
             f.encoding = fe
         if focus == 'diff' and j == 0:
@@ -136,6 +142,10 @@ def normalised(t):
         elif sid.endswith('meta'):
             if content:
                 opts.setdefault('format', 'json')
+                # 'equal as a JSON value': after one trip through JSON text (json merges a high surrogate directly
+                # followed by a low one into one character; tuples become lists)
+                from harness.rw import json_normal_form
+                content = json_normal_form(content)
             else:
                 content, opts = {}, {'format': 'json'}
         elif sid.endswith('diff'):
@@ -188,6 +198,13 @@ def rebuild(desc):
             sec = cur_f.diff_section
         sec.options.clear()
         sec.options.update(opts)
-        if hasattr(sec, '_content'):
-            sec._content = content
+        if sid not in ('diffx', '.change', '..file'):
+            try:
+                if content is not None:
+                    sec.content = content       # public, validating setter
+                    continue
+            except Exception:
+                pass
+            if hasattr(sec, '_content'):
+                sec._content = content
     return d
